@@ -283,8 +283,10 @@ def invert(a):
     return sub(neg(a), 1)
 
 
+MUL_W = 72
 MUL_UF = [False]      # when True, symbolic*symbolic products become uninterpreted functions (sound for unsat)
 _uf_cache = {}
+_uf_exact = {}       # id(application) -> (application, exact term at the operands' own width)
 
 
 def _uf(name, *sorts):
@@ -303,11 +305,19 @@ def mul(a, b):
     cs = [a.lo * b.lo, a.lo * b.hi, a.hi * b.lo, a.hi * b.hi]
     lo, hi = min(cs), max(cs)
     w = width_for(lo, hi)
-    if MUL_UF[0] and a.lo != a.hi and b.lo != b.hi:
-        # canonical operand order by term id so that x*y and y*x coincide
-        x, y = (a, b) if a.t.get_id() <= b.t.get_id() else (b, a)
-        f = _uf('mulUF', x.t.sort(), y.t.sort(), z3.BitVecSort(w))
-        return norm(f(x.t, y.t), lo, hi)
+    if MUL_UF[0] and a.lo != a.hi and b.lo != b.hi and a.w <= MUL_W and b.w <= MUL_W and w <= 2 * MUL_W:
+        # symbolic * symbolic: one uninterpreted function over canonical (sign-extended) operands, so that the same
+        # product written on the code side and on the specification side is the same term up to congruence.
+        # Over-approximation: `unsat` is sound; a `sat` answer is re-examined with the exact products (Engine.refine_mul)
+        xa, xb = z3.simplify(fit(a, MUL_W)), z3.simplify(fit(b, MUL_W))
+        f = _uf('mulUF', xa.sort(), xb.sort(), z3.BitVecSort(2 * MUL_W))
+        exact = z3.SignExt(2 * MUL_W - w, fit(a, w) * fit(b, w))
+        # commutative by construction: the function is applied to (min, max) of the operands
+        app1, app2 = f(xa, xb), f(xb, xa)
+        for app in (app1, app2):
+            if app.get_id() not in _uf_exact:
+                _uf_exact[app.get_id()] = (app, exact)
+        return norm(z3.If(xa <= xb, app1, app2), lo, hi)
     return norm(fit(a, w) * fit(b, w), lo, hi)
 
 
@@ -466,6 +476,13 @@ def truncdiv(a, b):
         HOST_CHECK[0](b.t != 0, ZeroDivisionError, 'division by zero')
     w = max(a.w, b.w) + 1
     m = max(abs(a.lo), abs(a.hi))
+    if MUL_UF[0] and w <= MUL_W:
+        # same abstraction as for products: quotient of canonical operands as an uninterpreted function, exact on refinement
+        f = _uf('divUF', z3.BitVecSort(MUL_W), z3.BitVecSort(MUL_W), z3.BitVecSort(MUL_W))
+        app = f(z3.simplify(fit(a, MUL_W)), z3.simplify(fit(b, MUL_W)))
+        if app.get_id() not in _uf_exact:
+            _uf_exact[app.get_id()] = (app, z3.SignExt(MUL_W - w, fit(a, w) / fit(b, w)))   # bvsdiv: truncating
+        return norm(app, -m, m)
     return norm(fit(a, w) / fit(b, w), -m, m)       # z3 '/' on signed BitVecRef = bvsdiv (truncating)
 
 
@@ -706,3 +723,30 @@ def evaluate(x, model):
     if isinstance(x, SymBool):
         return z3.is_true(model.eval(x.b, model_completion=True))
     return x
+
+
+def mul_uf_definitions(terms):
+    """exact definitions  mulUF(x, y) == sext(x) * sext(y)  for every application occurring in `terms`"""
+    seen, apps, todo = set(), [], list(terms)
+    while todo:
+        t = todo.pop()
+        i = t.get_id()
+        if i in seen:
+            continue
+        seen.add(i)
+        if z3.is_app(t):
+            if t.decl().name().startswith('mulUF_') or t.decl().name().startswith('divUF_'):
+                apps.append(t)
+            todo.extend(t.children())
+    out = []
+    for a in apps:
+        hit = _uf_exact.get(a.get_id())
+        if hit is not None:
+            out.append(a == hit[1])
+            continue
+        x, y = a.children()
+        if a.decl().name().startswith('divUF_'):
+            out.append(a == x / y)
+        else:
+            out.append(a == z3.SignExt(MUL_W, x) * z3.SignExt(MUL_W, y))
+    return out
